@@ -138,6 +138,7 @@ type Contracts struct {
 	frames     []*FrameSpec
 	orders     []*OrderSpec
 	boundeds   []*BoundedSpec
+	positions  []*PositionsSpec
 	files  []string
 }
 
@@ -235,6 +236,13 @@ func (cs *Contracts) loadFile(path string, pkgName string, commentPrefix bool) e
 				return perr(err)
 			}
 			cs.frames = append(cs.frames, sp)
+			cur = nil
+		case "positions":
+			sp, err := parsePositionsSpec(rest, props, where)
+			if err != nil {
+				return perr(err)
+			}
+			cs.positions = append(cs.positions, sp)
 			cur = nil
 		case "bounded":
 			sp, err := parseBoundedSpec(rest, props, where)
